@@ -286,6 +286,11 @@ func checkC04(w *World, r *Report) {
 		importRules(w, r, checkC05, "C05", "C04.R5", func(o *Obligation) bool {
 			return o.Rule == "C05.R2" && (strings.HasPrefix(o.Key, "C05.R2|restart-buffer-dropped") || strings.HasSuffix(o.Key, ":clears-replayed-buffer"))
 		})
+		// ... and what is sent before Started or while the actor is down waits in the ring
+		r.Rule("C04.R6", "messages accepted before Started (or during a restart) wait in a ring whose operations are sound (C14.R1-R5)", 8)
+		importRules(w, r, checkC14, "C14", "C04.R6", func(o *Obligation) bool {
+			return o.Rule == "C14.R1" || o.Rule == "C14.R2" || o.Rule == "C14.R3" || o.Rule == "C14.R4" || o.Rule == "C14.R5"
+		})
 	}
 }
 
@@ -320,6 +325,12 @@ func checkStopFn(w *World, r *Report, pr *procRoles, rule string) {
 	}
 	r.Check(okRem, rule, fn+":unregisters", "the actor is removed from the registry on every path, before Stopped is delivered (a panicking Stopped handler cannot keep the id registered)", site,
 		"a stopped actor can stay registered: later sends are accepted into a dead inbox instead of dead-lettering, and the id can never be spawned again")
+	{
+		all := w.Nodes(g, evRem, false)
+		once, _ := g.AtMostOnce(all)
+		r.Check(once, rule, fn+":unregisters-once", "the stop function removes the registry entry once (before Stopped), never again afterwards", site,
+			"Registry.Remove runs a second time (a deferred or trailing removal): Remove is by id, so if the id was spawned again while this actor handled Stopped the second removal evicts the live successor")
+	}
 	r.Check(g.AfterEntry(w.Nodes(g, evEvt, true)), rule, fn+":ActorStoppedEvent", "ActorStoppedEvent is published on every path", site,
 		"a path through the stop function publishes no ActorStoppedEvent")
 	r.Check(g.AfterEntry(S), rule, fn+":stops-inbox", "the inbox is stopped on every path", site, "a path through the stop function leaves the inbox running")
@@ -340,6 +351,12 @@ func checkC05(w *World, r *Report) {
 	}
 	pr.lta.export(r, "C05.R1", []string{"panic-escapes"}, "a panic in Receive never leaves the actor")
 	if r.Prop == "C05" {
+		// the restarted actor still has ONE worker: Start's call of Inboxer.Start from inside the worker must stay a no-op
+		r.Rule("C05.R6", "a restart leaves one worker: status-word protocol and Start's guard (C02.R1-R5); the restart event's Log cannot panic in the event stream", 6)
+		importRules(w, r, checkC02, "C02", "C05.R6", func(o *Obligation) bool {
+			return o.Rule == "C02.R1" || o.Rule == "C02.R2" || o.Rule == "C02.R3" || o.Rule == "C02.R4" || o.Rule == "C02.R5"
+		})
+		checkEventLogs(w, r, "C05.R6", []string{"ActorRestartedEvent"})
 		// what is sent while the actor is down waits in the ring, which may have to grow under it
 		r.Rule("C05.R5", "messages sent during the restart wait in the ring in order: pops, pushes and the grow transfer are sound (C14.R2-R5)", 8)
 		importRules(w, r, checkC14, "C14", "C05.R5", func(o *Obligation) bool {
@@ -827,6 +844,10 @@ func checkC06(w *World, r *Report) {
 	checkStopFn(w, r, pr, "C06.R3")
 	checkChildrenRegion(w, r, pr, "C06.R3")
 	checkSafeMapLen(w, r, "C06.R3")
+	if r.Prop == "C06" {
+		// a terminated actor gets nothing more: its worker looks at the status before every batch
+		checkLoopStatus(w, r, "C06.R4")
+	}
 	budgetPath := ">" + pr.restartFn.Name() + ">" + pr.stopFn.Name()
 	pr.lta.exportIf(r, "C06.R4", []string{"panic-escapes", "Stopped-twice", "terminated-without-Stopped", "inbox-started-after-cleanup", "delivery-after-Stopped"},
 		"clean termination at the restart budget", func(f lfinding) bool {
@@ -957,6 +978,18 @@ func checkChildrenRegion(w *World, r *Report, pr *procRoles, rule string) {
 	}
 	r.Check(ok && !skip, rule, fn+":children-first", "children are stopped before the parent's inbox stops, before it is unregistered and before its Stopped", site,
 		"the parent can stop (or be unregistered / handle Stopped) while children are still alive, or the children region can be bypassed with children present")
+	// the children are stopped in ONE pass over one snapshot: a loop that goes on "while there are children" never ends
+	// when an entry cannot be removed by stopping it (a child that died while it was being spawned is still listed)
+	{
+		kids := w.Method("actor", "Context", "Children")
+		K := w.Nodes(g, Ev{Name: "Children", M: EvCall("Children", kids).M, Shallow: true}, false)
+		once := true
+		if anyOf(K) {
+			once, _ = g.AtMostOnce(K)
+		}
+		r.Check(once, rule, fn+":children-one-pass", "the stop function takes the list of children at most once and stops that list", site,
+			"the children are listed again and again until none is left: an entry that stopping cannot remove (a child that died during SpawnChild stays listed) makes the stop function spin forever: no Stopped, never unregistered")
+	}
 }
 
 // ---------------------------------------------------------------------------
